@@ -10,7 +10,7 @@ import sys
 import time
 
 VERIF = os.path.dirname(os.path.dirname(os.path.abspath(__file__)))
-EXTRA = {"C19-g": ["C17"], "C13-g": ["C11"], "C09-f": ["C01"], "C09-c": ["C06"], "C19-c": ["C01"], "C01-c": ["C19"], "C01-b": ["C14"], "C03-a": ["C01"], "C06-a": ["C05"], "C19-a": ["C01"], "C20-a": ["C14"], "C16-b": ["C14"], "C05-b": ["C14"]}
+EXTRA = {"C01-g": ["C03"], "C19-g": ["C17"], "C13-g": ["C11"], "C09-f": ["C01"], "C09-c": ["C06"], "C19-c": ["C01"], "C01-c": ["C19"], "C01-b": ["C14"], "C03-a": ["C01"], "C06-a": ["C05"], "C19-a": ["C01"], "C20-a": ["C14"], "C16-b": ["C14"], "C05-b": ["C14"]}
 NOBASE = "--no-baseline" in sys.argv  # re-verification of seeds whose baseline result is already recorded: keep the recorded baseline line
 sys.argv = [a for a in sys.argv if a != "--no-baseline"]
 ids = sys.argv[1:] or sorted(d for d in os.listdir(os.path.join(VERIF, "seeded")) if re.match(r"C\d\d-", d))
